@@ -151,6 +151,7 @@ ExportStartup ==
        cached |-> {[n |-> n, c |-> CachedAfter(user, form, base, n)] : n \in CompileCounts},
        fresh |-> FreshRegistryBehavior(user, form, base),
        watch |-> ReloadsOnChangeIn(user, form, base, FS, Apps, WatchTarget),
+       watchdevkey |-> DevReloadKey(user, form, base, FS, Apps, WatchTarget),
        autod |-> AutodiscoverImports(user, form, base, ProbeDirs),
        libs |-> LibrariesLoaded(user, form, base),
        mayfail |-> MayFail,
